@@ -526,11 +526,12 @@ func RunScenario(sc *Scenario, yield func(string)) (fs []finding, obs map[string
 		}
 		return sc.Clients[ps.Client].ID
 	}
+	// one deadline for the whole scenario: when a sentinel is missing the rest is not waited for again and again
+	deadline := time.Now().Add(30 * time.Second)
 	for ci, cs := range sc.Clients {
 		for _, ps := range sc.Pubs {
 			want := len(expect(sc, cs, pubClientID(ps), sentinelOf(ps)))
 			payload := fmt.Sprintf("%s/%d", ps.Name, len(ps.Msgs))
-			deadline := time.Now().Add(30 * time.Second)
 			for {
 				n := 0
 				for _, r := range clients[ci].Publishes() {
